@@ -47,6 +47,19 @@ theorem C02_het_arity (w : World) (hw : w.WF) (cfg : Cfg) (ts : List Ty) (o : Ob
   simp only [conf] at this
   exact confT_length w ts ys this
 
+/-- **NamedTuples: exact class and arity.**  A NamedTuple is only ever returned as an instance of exactly that class
+with exactly the declared fields (defaults are never used to fill in missing items, no item is dropped). -/
+theorem C02_nt_arity (w : World) (hw : w.WF) (cfg : Cfg) (c : Nat) (o v : Obj)
+    (h : stF w cfg (.nt c) o = some v) :
+    ∃ fs, v = .inst c fs ∧ fs.map (·.1) = w.ntNames c ∧ fs.length = (w.fields c).length := by
+  have hc := sound w cfg hw _ _ _ h
+  cases v <;> simp [conf] at hc
+  rename_i c' fs
+  obtain ⟨⟨⟨rfl, _⟩, hn⟩, _⟩ := hc
+  refine ⟨fs, rfl, hn, ?_⟩
+  have := congrArg List.length hn
+  simpa [World.ntNames] using this
+
 /-! Non-vacuity: the example world of C04 is well-formed, and a junk payload (a list where an
 `int` is required next to a valid key) is rejected, not defaulted. -/
 section Examples
@@ -80,6 +93,26 @@ example : stF exWorld2 ⟨true, false, false, false⟩ (.cls 0)
   · rfl
   · simp [dlookup, Field.key, Obj.pyEq, Obj.num2?]
   · simp [stF, Obj.toInt?]
+
+/-- `class Q(NamedTuple): x: int; y: str = "d"`: a payload with one item is rejected in both modes -- the default is
+not used to fill in the missing item -- and three items are rejected as well -/
+def exWorldNT : World :=
+  { classes := [{ kind := .namedtuple, frozen := true, fields :=
+      [ { name := "x", alias := "x", ty := some .int, dflt := .none, init := true, required := true },
+        { name := "y", alias := "y", ty := some .str, dflt := .const (.str "d"), init := true, required := true } ] }],
+    enums := [] }
+
+example : stF exWorldNT ⟨true, false, false, false⟩ (.nt 0) (.coll .list [.int 1]) = Option.none := by
+  simp [stF, stFT, iterItems, exWorldNT, World.isNT, World.ntTys, World.fields, Field.tyA, Obj.toInt?]
+example : stD exWorldNT ⟨false, false, true, false⟩ (.nt 0) (.coll .list [.int 1])
+    = .error (.ive [(Option.none, .leaf)]) := by
+  simp [stD, stDT, iterItems, exWorldNT, World.isNT, World.ntTys, World.fields, Field.tyA, Obj.toInt?]
+example : stF exWorldNT ⟨true, false, false, false⟩ (.nt 0) (.coll .tuple [.int 1, .str "a", .int 3]) = Option.none := by
+  simp [stF, stFT, iterItems, exWorldNT, World.isNT, World.ntTys, World.fields, Field.tyA, Obj.toInt?, pyStr]
+example : stF exWorldNT ⟨false, true, false, false⟩ (.nt 0) (.coll .list [.str "7", .str "b"])
+    = some (.inst 0 [("x", .int 7), ("y", .str "b")]) := by
+  simp [stF, stFT, iterItems, exWorldNT, World.isNT, World.ntTys, World.ntNames, World.fields, Field.tyA, Obj.toInt?, pyStr,
+    ntMk, parseInt?, isDigit, digitsVal]
 end Examples
 
 end CattrsModel
